@@ -42,6 +42,9 @@ def run(cx):
     g = peg.find_grammar(cx.ast, GRAMMAR)
     cx.g = g
     r1(cx, g); r2(cx); r3(cx, g)
+    cx.rule("C11.R4", "accepted text is answered with a value, not a panic: the may-panic constructs of the hand-written code behind IDL::try_from (from_token, trim_doc, the error mapper) are the reviewed table of C12.R3 — a slice of the documentation text at a byte offset computed from character counts would panic on a valid definition")
+    from .C12 import r3 as parser_panic_census
+    parser_panic_census(cx, rule="C11.R4")
 
 
 def lexical(cx, g, rule, follow_rules):
